@@ -32,7 +32,7 @@ impl Property for C11 {
         Meta {
             id: "C11",
             level: "exploration",
-            rule: "one evaluation = Reader::with_stream on a signed tiny asset whose leading bytes identify its container (JPEG, PNG, GIF, RIFF/WAV, RIFF/WebP, TIFF, JPEG XL, BMFF, FLAC, MP3 - 10 of the 11 formats; SVG has no magic) with a format hint taken from EVERY string in Reader::supported_mime_types() plus unknown strings, under a first-read length of 1..16 bytes or full and seeded benign chunking afterwards. Oracle: report and validation codes equal those obtained with the correct hint and full reads. Non-trivial = hint differs from the asset's format or the first read is short; distinct = (format, hint, first-read length, chunking)",
+            rule: "one evaluation = Reader::with_stream on a signed tiny asset whose leading bytes identify its container (JPEG, PNG, GIF, RIFF/WAV, RIFF/WebP, TIFF in both byte orders, JPEG XL, BMFF, FLAC, MP3 with and without a leading ID3 tag - 10 of the 11 formats; SVG has no magic) with a format hint taken from EVERY string in Reader::supported_mime_types() plus unknown strings, under a first-read length of 1..16 bytes or full and seeded benign chunking afterwards. Oracle: report and validation codes equal those obtained with the correct hint and full reads. Non-trivial = hint differs from the asset's format or the first read is short; distinct = (format, hint, first-read length, chunking)",
             assumptions: &["streams are legal streams (never Ok(0) before EOF); a 1-byte first read is legal"],
             real: &["c2pa Reader incl. format sniffing (jumbf_io::format_from_stream)"],
             stubbed: &["asset stream (SimStream)"],
@@ -58,8 +58,22 @@ impl Property for C11 {
         let shard = (rc.idx / 10) % 4;
         let variant = rc.idx / 40;
         let ctx = Arc::new(sdk::make_context(&json!({})));
-        let mut ar = crate::rng::Rng::new(hash_str(&format!("{}-{}-{variant}-c11", rc.seed, fmt.name())));
-        let asset = assets::generate(fmt, &mut ar);
+        // every spelling of the container's magic the generator can produce, in turn: both TIFF
+        // byte orders, MP3 with and without a leading ID3 tag
+        let wanted: &[&[u8]] = match fmt {
+            Fmt::Tiff => &[b"II*\0", b"MM\0*"],
+            Fmt::Mp3 => &[b"ID3", b"\xff"],
+            _ => &[b""],
+        };
+        let want = wanted[(variant as usize) % wanted.len()];
+        let mut asset = Vec::new();
+        for attempt in 0..64 {
+            let mut ar = crate::rng::Rng::new(hash_str(&format!("{}-{}-{variant}-{attempt}-c11", rc.seed, fmt.name())));
+            asset = assets::generate(fmt, &mut ar);
+            if asset.starts_with(want) {
+                break;
+            }
+        }
         c2pa::verif::set_random_seed(Some(hash_str(&format!("c11-{}-{}-{variant}", rc.seed, fmt.name()))));
         let signed = match sdk::sign_plain(&ctx, &sdk::simple_definition("c11"), "ed25519", fmt.mime(), &asset) {
             Ok(s) => s,
